@@ -107,6 +107,13 @@ impl Input {
     }
 
     /// A reference to the buffers of the input node.
+    /// Verification hook (guard: `--cfg rustaudio_dasp_verif`): lets a harness call a node's
+    /// `process` directly on buffers it owns. The slice must outlive the returned `Input`.
+    #[cfg(rustaudio_dasp_verif)]
+    pub fn verif_new(slice: &[Buffer]) -> Self {
+        Self::new(slice)
+    }
+
     pub fn buffers(&self) -> &[Buffer] {
         // As we know that an `Input` can only be constructed during a call to the graph `process`
         // function, we can be sure that our slice is still valid as long as the input itself is
